@@ -1,23 +1,20 @@
 """C35 -- pkg-config output is translated to build keywords without loss.
 
-CrossHair on the real flags_from_pkgconfig / merge_flags / call of src/cffi/pkgconfig.py.
-`call` is replaced by a stub whose result's .split() yields a symbolic token list (str.split's
-contract: the tokens); for `call` itself subprocess.Popen is a stub with symbolic exit status
-and output bytes.
+pysym/SymStr on the real flags_from_pkgconfig / merge_flags / call of src/cffi/pkgconfig.py.
+`call` is replaced by a stub whose result's .split() yields a list of symbolic tokens (every
+string of the given lengths; str.split's contract is the token list); for `call` itself
+subprocess.Popen is a stub with a symbolic exit status, a decode() that may fail or yield any
+text, so every decision the real code takes on its inputs is a solver-guided fork.
+One exploration per tuple of token lengths (lengths are the only concrete part).
 """
-from vf import common, xhair
+import os, sys, itertools, json
+import z3
+from vf import common, llsym, pysym, symstr, hutil
 
-LEVEL = 'model_checking'
-
-HARNESS = r'''
-import sys
-from typing import List, Optional, Tuple
-from cffi import pkgconfig
-from cffi.error import PkgConfigError
+KEYS = ["include_dirs", "library_dirs", "libraries", "define_macros", "extra_compile_args", "extra_link_args"]
 
 
 class _Out(object):
-    """what pkg-config printed, already tokenised: only .split() is used by the code under test"""
     def __init__(self, tokens):
         self.tokens = tokens
 
@@ -25,14 +22,8 @@ class _Out(object):
         return list(self.tokens)
 
 
-def _install(table):
-    def fake_call(libname, flag, encoding=None):
-        cflags, libs = table[libname]
-        return _Out(cflags if flag == '--cflags' else libs)
-    pkgconfig.call = fake_call
-
-
 def ref_one(cflags, libs):
+    """reference translation, written independently of the code under test"""
     inc, mac, oc, ld, ll, ol = [], [], [], [], [], []
     for t in cflags:
         if t[:2] == '-I':
@@ -57,120 +48,239 @@ def ref_one(cflags, libs):
             "extra_compile_args": oc, "extra_link_args": ol}
 
 
-def _short(tokens, n, m):
-    if len(tokens) > n:
-        return False
-    for t in tokens:
-        if len(t) > m:
+def sym_equal(a, b):
+    """structural equality of results containing SymStr -> python bool or z3 Bool"""
+    if isinstance(a, (list, tuple)) and isinstance(b, (list, tuple)):
+        if type(a) != type(b) or len(a) != len(b):
             return False
-    return True
+        return llsym.b_and(*[sym_equal(x, y) for x, y in zip(a, b)])
+    if isinstance(a, dict) and isinstance(b, dict):
+        if sorted(a.keys()) != sorted(b.keys()):
+            return False
+        return llsym.b_and(*[sym_equal(a[k], b[k]) for k in a])
+    if isinstance(a, symstr.SymStr):
+        t = a._eq_term(b)
+        return False if t is None else t
+    if isinstance(b, symstr.SymStr):
+        t = b._eq_term(a)
+        return False if t is None else t
+    return a == b
 
 
-def prop_one_package(cflags: List[str], libs: List[str]) -> bool:
-    """
-    pre: _short(cflags, %(NT)d, %(NC)d) and _short(libs, %(NT)d, %(NC)d)
-    pre: _ok('prop_one_package', cflags, libs)
-    post: _ == True
-    """
-    _install({'p': (cflags, libs)})
-    got = pkgconfig.flags_from_pkgconfig(['p'])
-    return got == ref_one(cflags, libs)
+def conc(x, m):
+    if isinstance(x, symstr.SymStr):
+        return x.concrete(m)
+    if isinstance(x, list):
+        return [conc(y, m) for y in x]
+    if isinstance(x, tuple):
+        return tuple(conc(y, m) for y in x)
+    if isinstance(x, dict):
+        return dict((k, conc(v, m)) for k, v in x.items())
+    return x
 
 
-def prop_macro_token(t: str) -> bool:
-    """
-    pre: len(t) <= %(NM)d
-    pre: _ok('prop_macro_token', t)
-    post: _ == True
-    """
-    _install({'p': (['-D' + t], [])})
-    got = pkgconfig.flags_from_pkgconfig(['p'])
-    i = t.find('=')
-    want = (t, None) if i < 0 else (t[:i], t[i + 1:])
-    return got['define_macros'] == [want] and got['include_dirs'] == [] and got['extra_compile_args'] == []
-
-
-def prop_two_packages(c1: List[str], l1: List[str], c2: List[str], l2: List[str]) -> bool:
-    """
-    pre: _short(c1, 2, %(NC2)d) and _short(l1, 2, %(NC2)d) and _short(c2, 2, %(NC2)d) and _short(l2, 2, %(NC2)d)
-    pre: _ok('prop_two_packages', c1, l1, c2, l2)
-    post: _ == True
-    """
-    _install({'a': (c1, l1), 'b': (c2, l2)})
-    got = pkgconfig.flags_from_pkgconfig(['a', 'b'])
-    ra, rb = ref_one(c1, l1), ref_one(c2, l2)
-    want = dict((k, ra[k] + rb[k]) for k in ra)
-    return got == want
-
-
-def prop_merge_flags(a: List[str], b: List[str], c: List[str]) -> bool:
-    """
-    pre: len(a) <= 2 and len(b) <= 2 and len(c) <= 2
-    post: _ == True
-    """
-    cfg = pkgconfig.merge_flags({'x': list(a)}, {'x': list(b), 'y': list(c)})
-    return cfg == {'x': a + b, 'y': c}
-
-
-class _Popen(object):
-    def __init__(self, rc, out, err):
-        self.returncode = rc
-        self._o, self._e = out, err
-
-    def communicate(self):
-        return self._o, self._e
-
-
-def prop_call(rc: int, out: bytes, err: bytes) -> bool:
-    """
-    pre: len(out) <= %(NB)d and len(err) <= 2
-    pre: _ok('prop_call', rc, out, err)
-    post: _ == True
-    """
-    import subprocess
-    real_popen = subprocess.Popen
-    import importlib
-    subprocess.Popen = lambda *a, **k: _Popen(rc, out, err)
-    try:
-        mod = sys.modules['cffi.pkgconfig']
-        # the harness replaced `call` in other properties: fetch the original function object
-        fn = _ORIG_CALL
-        try:
-            r = fn('lib', '--cflags', 'utf-8')
-            ok = True
-        except PkgConfigError:
-            ok = False
-        # any other exception propagates and fails the property
-    finally:
-        subprocess.Popen = real_popen
-    try:
-        text = out.decode('utf-8')
-        decodable = True
-    except UnicodeDecodeError:
-        text, decodable = None, False
-    should_succeed = (rc == 0) and decodable and (chr(92) not in text)
-    if ok != should_succeed:
-        return False
-    return (r == text) if ok else True
-
-
-_ORIG_CALL = pkgconfig.call
+REPLAY = r'''
+# Replay for C35 against the real cffi.pkgconfig: a stub pkg-config program on PATH prints the tokens.
+import sys, os, json, tempfile, stat
+case = json.loads(%r)
+d = tempfile.mkdtemp()
+prog = os.path.join(d, 'pkg-config')
+open(prog, 'w').write("""#!%%s
+import sys, json
+table = json.loads(%%r)
+flag, lib = sys.argv[-2], sys.argv[-1]
+sys.stdout.write(' '.join(table[lib][0 if flag == '--cflags' else 1]))
+""" %% (sys.executable, json.dumps(case['table'])))
+os.chmod(prog, 0o755)
+os.environ['PATH'] = d + os.pathsep + os.environ['PATH']
+from cffi import pkgconfig
+got = pkgconfig.flags_from_pkgconfig(case['libs'])
+def ref_one(cflags, libs):
+    r = dict((k, []) for k in ["include_dirs", "library_dirs", "libraries", "define_macros", "extra_compile_args", "extra_link_args"])
+    for t in cflags:
+        if t[:2] == '-I': r['include_dirs'].append(t[2:])
+        elif t[:2] == '-D':
+            b = t[2:]; i = b.find('=')
+            r['define_macros'].append((b, None) if i < 0 else (b[:i], b[i+1:]))
+        else: r['extra_compile_args'].append(t)
+    for t in libs:
+        if t[:2] == '-L': r['library_dirs'].append(t[2:])
+        elif t[:2] == '-l': r['libraries'].append(t[2:])
+        else: r['extra_link_args'].append(t)
+    return r
+want = None
+for lib in case['libs']:
+    r = ref_one(*case['table'][lib])
+    want = r if want is None else dict((k, want[k] + r[k]) for k in r)
+if got != want:
+    print('VIOLATED: tokens', case['table'], '->', got, 'expected', want)
+    sys.exit(1)
+sys.exit(0)
 '''
+
+
+def make_replay(chk):
+    def replay(case):
+        # tokens containing whitespace or empty tokens cannot be produced by a real pkg-config run
+        for lib in case['table'].values():
+            for toks in lib:
+                for t in toks:
+                    if not t or any(ch.isspace() or ord(ch) < 32 or ord(ch) > 126 for ch in t) or '\\' in t:
+                        return None, None
+        body = REPLAY % json.dumps(case)
+        path = chk.write_replay('tokens', body)
+        rc, out = common.run_replay(path)
+        return common.replay_verdict(rc, out), path
+    return replay
+
+
+def worker(args):
+    prop, tier, kind, shape = args
+    sys.path.insert(0, os.path.join(common.REPO, 'src'))
+    chk = hutil.sub_check(prop, tier)
+    from cffi import pkgconfig
+    from cffi.error import PkgConfigError
+    ex = pysym.PyExplorer()
+    replay = make_replay(chk)
+    label = '%s%r' % (kind, shape)
+    if not hasattr(pkgconfig, '_verif_orig_call'):
+        pkgconfig._verif_orig_call = pkgconfig.call      # workers are reused: keep the real function
+
+    if kind == 'flags':
+        # shape: tuple of packages, each (cflags token lengths, libs token lengths)
+        def h(ex):
+            table = {}
+            names = []
+            for pi, (cl, ll) in enumerate(shape):
+                name = 'p%d' % pi
+                names.append(name)
+                c = [symstr.SymStr.fresh(ex, '%s.c%d' % (name, i), n) for i, n in enumerate(cl)]
+                l = [symstr.SymStr.fresh(ex, '%s.l%d' % (name, i), n) for i, n in enumerate(ll)]
+                c = [x if n else '' for x, n in zip(c, cl)]
+                l = [x if n else '' for x, n in zip(l, ll)]
+                table[name] = (c, l)
+
+            def fake_call(libname, flag, encoding=None):
+                c, l = table[libname]
+                return _Out(c if flag == '--cflags' else l)
+            pkgconfig.call = fake_call
+            got = pkgconfig.flags_from_pkgconfig(list(names))
+            want = None
+            for n in names:
+                r = ref_one(*table[n])
+                want = r if want is None else dict((k, want[k] + r[k]) for k in KEYS)
+            m = hutil.witness(chk, ex, label + ':' + ','.join('%s=%d' % (k, len(got.get(k, []))) for k in KEYS))
+            if m is not None:
+                chk.sample({'tokens': conc(table, m), 'result': conc(got, m)})
+
+            def rp(case):
+                mm = case['_model']
+                return replay({'libs': names, 'table': dict((k, [conc(v[0], mm), conc(v[1], mm)]) for k, v in table.items())})
+            cond = sym_equal(got, want)
+            t_inputs = {}
+            # discharge with a replay that needs the model: done by hand
+            import time
+            t0 = time.time()
+            mm = ex.sat(llsym.b_not(cond))
+            if mm is None:
+                chk.query(label + ':result==reference', 'unsat', time.time() - t0)
+            else:
+                chk.query(label + ':result==reference', 'sat', time.time() - t0)
+                ok, script = rp({'_model': mm})
+                chk.report_failure('%s: tokens %r -> %r, expected %r' % (label, conc(table, mm), conc(got, mm), conc(want, mm)),
+                                   {}, script, ok)
+    else:
+        # kind == 'call': shape = length of the decoded output text
+        n = shape
+        orig_call = pkgconfig._verif_orig_call
+
+        def h(ex):
+            import subprocess
+            rc = ex.sym_int('returncode')
+            decodable = z3.Bool('decodable')
+            text = symstr.SymStr.fresh(ex, 'out', n, ascii_only=True) if n else ''
+
+            class Bytes(object):
+                def decode(self, enc):
+                    if ex.decide(decodable):
+                        return text
+                    raise UnicodeDecodeError('utf-8', b'', 0, 1, 'stub')
+
+                def strip(self):
+                    return self
+
+            class P(object):
+                returncode = rc
+
+                def communicate(self):
+                    return Bytes(), Bytes()
+            real = subprocess.Popen
+            subprocess.Popen = lambda *a, **k: P()
+            try:
+                try:
+                    r = orig_call('lib', '--cflags', 'utf-8')
+                    outcome = 'returned'
+                except PkgConfigError:
+                    outcome = 'PkgConfigError'
+                except (llsym.PathEnd, llsym.Unsupported, llsym.UnwindBound):
+                    raise
+                except Exception as e:
+                    outcome = 'other:' + type(e).__name__
+            finally:
+                subprocess.Popen = real
+            has_bs = False
+            if n:
+                has_bs = z3.Or(*[c == 92 for c in text.chars])
+            should = llsym.b_and(rc.t == 0, decodable, llsym.b_not(has_bs))
+            hutil.witness(chk, ex, '%s:%s' % (label, outcome))
+            inputs = {'returncode': rc.t, 'decodable': decodable}
+            if outcome == 'returned':
+                hutil.discharge(chk, ex, label + ':returned=>exit0-decodable-no-backslash', should, inputs)
+                hutil.discharge(chk, ex, label + ':returned==decoded-text', sym_equal(r, text), inputs)
+            elif outcome == 'PkgConfigError':
+                hutil.discharge(chk, ex, label + ':PkgConfigError=>failing-run', llsym.b_not(should), inputs)
+            else:
+                chk.report_failure('%s: call() raised %s' % (label, outcome), {}, None, None)
+
+    res = ex.explore(h, max_paths=200000)
+    hutil.finish_explore(chk, ex, res, label)
+    return hutil.export(chk)
 
 
 def run(chk):
     quick = chk.tier == 'quick'
-    params = {'NT': 2 if quick else 3, 'NC': 3 if quick else 4, 'NM': 4 if quick else 6,
-              'NC2': 3 if quick else 3, 'NB': 3 if quick else 4}
-    chk.bounds = {'tokens per output': params['NT'], 'characters per token': params['NC'],
-                  'macro token length': params['NM'], 'packages': 2, 'pkg-config output bytes': params['NB'],
-                  'exit status': 'any int'}
+    P = (chk.prop, chk.tier)
+    cases = []
+    ML = 3 if quick else 4
+    lens = list(range(0, ML + 1))
+    # one package: up to 2 cflags tokens and 1 libs token (quick) / 2 and 2 (thorough)
+    for nc in range(0, 3):
+        for cl in itertools.product(lens, repeat=nc):
+            for nl in range(0, 2 if quick else 3):
+                for ll in itertools.product(lens if nl < 2 else lens[:4], repeat=nl):
+                    cases.append(P + ('flags', ((tuple(cl), tuple(ll)),)))
+    # macro tokens up to length 6 (the '-Dname=value' split)
+    for n in range(2, 7 if quick else 9):
+        cases.append(P + ('flags', (((n,), ()),)))
+    # two packages: merge order
+    two = [0, 2, 3]
+    for a in two:
+        for b in two:
+            cases.append(P + ('flags', (((a,), (b,)), ((b,), (a,)))))
+    if not quick:
+        for a, b, c, d in itertools.product([2, 3], repeat=4):
+            cases.append(P + ('flags', (((a, b), (c,)), ((d,), (a, b)))))
+    for n in range(0, 4 if quick else 6):
+        cases.append(P + ('call', n))
+    chk.bounds = {'cflags tokens': '<= 2 per package', 'libs tokens': '<= %d per package' % (1 if quick else 2),
+                  'characters per token': '<= %d, any ASCII code point' % ML, 'macro token length': '<= %d' % (6 if quick else 8),
+                  'packages': '<= 2', 'call(): decoded output': '<= %d characters; exit status any int; decode may fail' % (3 if quick else 5)}
     chk.outside = ['str.split() itself (tokens are delivered by a stub honouring its contract)',
-                   'the real pkg-config program and subprocess.Popen', 'more than 2 packages / longer tokens']
-    chk.assume('pkg-config output is modelled as its token list; PkgConfigError is the only exception allowed from call()')
+                   'non-ASCII token characters', 'the real pkg-config program and subprocess.Popen',
+                   'more tokens/packages than the bound']
+    chk.assume('pkg-config output is modelled as its token list; bytes.decode either raises UnicodeDecodeError or '
+               'returns some text; PkgConfigError is the only exception allowed from call()')
     chk.functions = [{'name': 'flags_from_pkgconfig', 'file': 'src/cffi/pkgconfig.py'},
                      {'name': 'merge_flags', 'file': 'src/cffi/pkgconfig.py'},
                      {'name': 'call', 'file': 'src/cffi/pkgconfig.py'}]
-    xhair.check_module(chk, 'c35', HARNESS % params, timeout_s=90 if quick else 400)
-    chk.sample({'function': 'prop_one_package', 'symbolic': 'cflags: List[str], libs: List[str]'})
-    chk.sample({'function': 'prop_call', 'symbolic': 'rc: int, out: bytes, err: bytes'})
+    hutil.run_cases(chk, cases, worker)
